@@ -359,6 +359,10 @@ func fileReadAux(L *LState, file *lFile, idx int) int {
 			if len(options) > 0 && options[0] != '*' {
 				L.ArgError(2, "invalid options:"+options)
 			}
+			// as in Lua 5.1 only the first character after '*' selects the format
+			if len(options) > 2 {
+				options = options[:2]
+			}
 			for _, opt := range options[1:] {
 				switch opt {
 				case 'n':
